@@ -1,0 +1,28 @@
+//go:build verif
+
+package pypi
+
+import "deps.dev/util/resolve/pypi/internal/lru"
+
+// VerifLRU runs a sequence of operations on a fresh cache of the given size and
+// returns the result of every Get (-1 when the key is absent). An operation is
+// {0, key, value} for Add and {1, key, 0} for Get. It is only available with
+// the "verif" build tag and lets an external verification harness drive the
+// internal LRU cache that backs the resolver's caches.
+func VerifLRU(size int, ops [][3]int64) []int64 {
+	c := lru.New[int64, int64](size)
+	var out []int64
+	for _, op := range ops {
+		switch op[0] {
+		case 0:
+			c.Add(op[1], op[2])
+		case 1:
+			if v, ok := c.Get(op[1]); ok {
+				out = append(out, v)
+			} else {
+				out = append(out, -1)
+			}
+		}
+	}
+	return out
+}
